@@ -13,7 +13,9 @@ META = {
             "brute force (is every valid source within the radius of a valid target kept?). Geometry pairs incl. targets at "
             "high latitude, off the central meridian, across the dateline, over a pole, flipped grids; targets with >= 200 rows / columns "
             "(source clusters at corners, side midpoints, centre, outside); geostationary area sources (sectors on the disk, over the limb, full disk) "
-            "sampled at a swath; get_neighbour_info(reduce_data=True, segments) + get_sample_from_neighbour_info. A reduction that drops a needed location "
+            "sampled at a swath; lon/lat grid / area sources stored east -> west and small high-latitude area sources sampled at swaths inside / reaching past them "
+            "(pairs whose coarse output window is too tight), there also get_neighbour_info(reduce_data=False, segments >= 2) + get_sample_from_neighbour_info "
+            "against the plain call and the plain call against brute force; get_neighbour_info(reduce_data=True, segments) + get_sample_from_neighbour_info. A reduction that drops a needed location "
             "is the known finding F7 only while the mask the library applies equals the frozen F7 window on the harness's own outline. Non-trivial: reduce_data "
             "drops >= 1 source, or segments >= 2, or nprocs >= 2. Distinct = distinct canonical input.",
     "assumptions": ["pairs with exact distance ties (two sources within 1e-9 relative for one target) are skipped: pykdtree (nprocs=1) and "
@@ -239,6 +241,138 @@ def _geos_source_pairs(ctx):
         desc = f"geos source {it}: {kind} sector {h}x{w} of {pix:.0f} m pixels, lon_0={lon_0} -> swath[{t_rows}x{t_cols}] over its footprint, r={radius:.0f}"
         out.append((src, SwathDefinition(lon, lat), radius, desc))
     return out
+
+
+def _tight_output_window_pairs(ctx):
+    """grid / area SOURCES sampled at SWATH targets (the only combination with an output reduction) whose coarse lon/lat window of the source outline
+    is narrower than "within the radius of a source pixel", so that a caller has a reason to pass reduce_data=False and every organisation of that
+    unreduced call must still return what the plain call returns:
+      * regular lon/lat meshes stored with the columns running east -> west (GridDefinition, or a longlat AreaDefinition with the x extent flipped),
+        rows in either order, anywhere on the globe; target positions scattered inside the mesh;
+      * small laea / polar-stereographic areas at 72..85 degrees latitude (either hemisphere, any central meridian, centred on or beside it);
+        target positions on a jittered lattice reaching a few pixels (less than the radius) past every side of the area."""
+    from pyresample.geometry import GridDefinition, SwathDefinition
+    import pyproj
+    r = ctx.rng
+    out = []
+    n = 3 if ctx.quick else 12
+    for it in range(n):
+        rows, cols = r.randrange(5, 12), r.randrange(8, 18)
+        step = r.choice([0.25, 0.5, 1.0])
+        lon_c, lat_c = r.uniform(-150.0, 150.0), r.uniform(-60.0, 60.0)
+        lons = lon_c + ((cols - 1) / 2 - np.arange(cols)) * step                 # first column = eastern edge
+        north_up = r.random() < 0.5
+        lats = lat_c + ((rows - 1) / 2 - np.arange(rows)) * step * (1 if north_up else -1)
+        kind = r.choice(["grid", "grid", "area"])
+        if kind == "grid":
+            mlon, mlat = np.meshgrid(lons, lats)
+            src = GridDefinition(mlon, mlat)
+        else:
+            north_up = True
+            src = kc.mk_area({"proj": "longlat", "datum": "WGS84"}, cols, rows,
+                             (float(lons[0] + step / 2), float(lat_c - rows * step / 2), float(lons[-1] - step / 2), float(lat_c + rows * step / 2)))
+        g = np.random.default_rng(r.getrandbits(32))
+        t_rows, t_cols = r.randrange(6, 12), r.randrange(5, 10)
+        tlon = g.uniform(lons.min() + 0.3 * step, lons.max() - 0.3 * step, size=(t_rows, t_cols))
+        tlat = g.uniform(lats.min() + 0.3 * step, lats.max() - 0.3 * step, size=(t_rows, t_cols))
+        radius = step * 111000.0 * r.choice([0.8, 1.3])
+        out.append((src, SwathDefinition(tlon, tlat), radius,
+                    f"tight window {it}: lon/lat {kind} {rows}x{cols} of {step} deg stored east->west ({'north' if north_up else 'south'} row first) around "
+                    f"({lon_c:.1f}E,{lat_c:.1f}N) -> swath[{t_rows}x{t_cols}] inside it, r={radius:.0f}"))
+    for it in range(n):
+        hemi = r.choice([1, -1])
+        lat_0, lon_0 = hemi * r.uniform(72.0, 85.0), r.uniform(-180.0, 180.0)
+        pname = r.choice(["laea", "laea", "stere"])
+        if pname == "laea":
+            proj = {"proj": "laea", "lat_0": lat_0, "lon_0": lon_0, "ellps": "WGS84"}
+            xc, yc = r.choice([0.0, 0.0, r.uniform(-2.0e5, 2.0e5)]), 0.0
+        else:
+            proj = {"proj": "stere", "lat_0": 90.0 * hemi, "lat_ts": 70.0 * hemi, "lon_0": lon_0, "ellps": "WGS84"}
+            xc, yc = pyproj.Proj(proj)((lon_0 + r.uniform(-40.0, 40.0) + 180) % 360 - 180, lat_0)
+        w, h = r.randrange(10, 22), r.randrange(10, 22)
+        pix = r.choice([8000.0, 12000.0, 20000.0])
+        ext = (xc - w * pix / 2, yc - h * pix / 2, xc + w * pix / 2, yc + h * pix / 2)
+        src = kc.mk_area(proj, w, h, ext)
+        margin = r.choice([2, 3])
+        radius = (margin + 0.75) * pix
+        t_rows, t_cols = r.randrange(8, 15), r.randrange(8, 15)
+        g = np.random.default_rng(r.getrandbits(32))
+        fx = (np.arange(t_cols) + 0.5) / t_cols
+        fy = (np.arange(t_rows) + 0.5) / t_rows
+        gx, gy = np.meshgrid(ext[0] - margin * pix + fx * ((w + 2 * margin) * pix), ext[3] + margin * pix - fy * ((h + 2 * margin) * pix))
+        gx = gx + g.uniform(-0.3, 0.3, size=gx.shape) * (w + 2 * margin) * pix / t_cols
+        gy = gy + g.uniform(-0.3, 0.3, size=gy.shape) * (h + 2 * margin) * pix / t_rows
+        tlon, tlat = _own_transformer(src).transform(gx, gy, direction="INVERSE")
+        if not (np.isfinite(tlon).all() and np.isfinite(tlat).all()):
+            continue
+        out.append((src, SwathDefinition(np.asarray(tlon), np.asarray(tlat)), radius,
+                    f"tight window hl{it}: {pname} {h}x{w} of {pix:.0f} m pixels at lat_0={lat_0:.1f} lon_0={lon_0:.1f} centre=({xc:.0f},{yc:.0f}) -> "
+                    f"swath[{t_rows}x{t_cols}] reaching {margin} px past every side, r={radius:.0f}"))
+    return out
+
+
+def check_unreduced_split(ctx, src, tgt, radius, desc):
+    """get_neighbour_info(reduce_data=False, segments >= 2[, nprocs 2]) + get_sample_from_neighbour_info on two datasets against the plain one-shot
+    calls (reduce_data=False, segments=1, nprocs=1): the caller switched the coarse reduction off, so the way the search is cut into segments must
+    not bring it back.  In addition the plain nearest-neighbour call is held against brute force: with the reduction off every valid target position
+    that has a valid source within the radius gets a value, every other one is masked."""
+    from pyresample import kd_tree
+    slo, sla = kc.lonlats(src)
+    tlo, tla = kc.lonlats(tgt)
+    n_src, n_tgt = int(slo.size), int(tlo.size)
+    k = ctx.rng.choice([2, 4])
+    tie, _, needed_tgt, _, _ = _brute_force_scan(slo.ravel(), sla.ravel(), tlo.ravel(), tla.ravel(), radius, k)
+    if tie:
+        ctx.count("skipped.tie")
+        return
+    rows = tgt.shape[0]
+    geo = {"source": kc.describe(src), "target": kc.describe(tgt)}
+    inp0 = {"pair": desc, "n_src": n_src, "n_tgt": n_tgt, "radius": float(radius)}
+    ids = np.arange(n_src, dtype=np.float64).reshape(src.shape)
+    datasets = [ids + 1.0, np.sqrt(ids) + 3.0]
+
+    def wf(dist):
+        return np.where(dist < radius / 3, 1.0, 0.25)
+    with warnings.catch_warnings():
+        warnings.simplefilter("ignore")
+        plain = {"nn": [kd_tree.resample_nearest(src, d, tgt, radius, epsilon=0, fill_value=None, reduce_data=False, segments=1, nprocs=1) for d in datasets],
+                 "custom": [kd_tree.resample_custom(src, d, tgt, radius, wf, neighbours=k, epsilon=0, fill_value=None, reduce_data=False, segments=1, nprocs=1)
+                            for d in datasets]}
+    got_value = ~np.ma.getmaskarray(plain["nn"][0]).ravel()
+    if not np.array_equal(got_value, needed_tgt):
+        ctx.fail("kd_tree.resample_nearest", "the plain unreduced call does not give a value to exactly the target positions that have a valid source within the radius",
+                 {**inp0, "type": "nn", "reduce_data": False, "segments": 1, "nprocs": 1, **geo},
+                 {"positions_with_source_in_range": int(needed_tgt.sum()), "positions_with_value": int(got_value.sum())},
+                 tags={"cause": "plain-vs-brute-force", "reduce_data": False}, size=n_src + n_tgt)
+    ctx.case("unreduced_plain", desc, nontrivial=bool(needed_tgt.any() and not needed_tgt.all()))
+    combos = [(sg, 1) for sg in sorted({ctx.rng.choice([2, 3]), rows} if ctx.quick else {2, 3, rows})]
+    if not ctx.quick or ctx.rng.random() < 0.34:
+        combos.append((ctx.rng.choice([2, 3, rows]), 2))
+    for sg, npr in combos:
+        for rtype, neighbours in (("nn", 1), ("custom", k)):
+            inp = {**inp0, "type": rtype, "reduce_data": False, "segments": sg, "nprocs": npr, "k": neighbours, "split": True}
+            with warnings.catch_warnings():
+                warnings.simplefilter("ignore")
+                try:
+                    info = kd_tree.get_neighbour_info(src, tgt, radius, neighbours=neighbours, epsilon=0, reduce_data=False, segments=sg, nprocs=npr)
+                    kw = {"weight_funcs": wf} if rtype == "custom" else {}
+                    got = [kd_tree.get_sample_from_neighbour_info(rtype, tgt.shape, d, info[0], info[1], info[2], distance_array=info[3], fill_value=None, **kw)
+                           for d in datasets]
+                except Exception as e:  # noqa
+                    ctx.fail("kd_tree", f"raised {type(e).__name__}: {e} (get_neighbour_info with reduce_data=False, segments={sg} + get_sample_from_neighbour_info; "
+                             "the plain call does not)", {**inp, **geo}, tags={"cause": "raises"}, size=n_src + n_tgt)
+                    got = None
+            if got is not None:
+                for i, (one, g) in enumerate(zip(plain[rtype], got)):
+                    if not _same(one, g):
+                        ndiff = int(np.sum(np.ma.getmaskarray(one) != np.ma.getmaskarray(g)) + np.sum(np.ma.filled(one, -12345.0) != np.ma.filled(g, -12345.0)))
+                        ctx.fail("kd_tree.get_neighbour_info", "get_neighbour_info(reduce_data=False, segments >= 2) + get_sample_from_neighbour_info differs from the plain "
+                                 "single-segment, single-process, unreduced one-shot call", {**inp, "dataset": i + 1, **geo},
+                                 {"elements_differing": ndiff, "positions_with_value_plain": int((~np.ma.getmaskarray(one)).sum()),
+                                  "positions_with_value_segmented": int((~np.ma.getmaskarray(g)).sum())},
+                                 tags={"cause": "organisation", "reduce_data": False, "segments_gt1": True, "nprocs_gt1": npr > 1}, size=n_src + n_tgt)
+                        break
+            ctx.case("unreduced_split", (desc, rtype, sg, npr), nontrivial=True, sample={"input": inp} if sg == 3 and rtype == "nn" else None)
 
 
 def _f7_reference_window(b_lons, b_lats, lons, lats, radius):
@@ -522,3 +656,14 @@ def run(ctx):
     for src, tgt, radius, desc in _geos_source_pairs(ctx):
         check(ctx, src, tgt, radius, desc, segs=[1, 3, tgt.shape[0]], with_nprocs=not ctx.quick, types=few, reuse=not ctx.quick, light=ctx.quick)
         ctx.count("pairs.geos_source")
+    for src, tgt, radius, desc in _tight_output_window_pairs(ctx):
+        before = ctx.counters.get("window.lon_window", 0) + ctx.counters.get("window.lat_window", 0) + ctx.counters.get("window.lon_window_changed", 0)
+        if ctx.quick:       # the reuse of unreduced neighbour info is exercised by check_unreduced_split below
+            check(ctx, src, tgt, radius, desc, segs=[1, ctx.rng.choice([2, 3, tgt.shape[0]])], with_nprocs=ctx.rng.random() < 0.34, reuse=False)
+        else:
+            check(ctx, src, tgt, radius, desc)
+        after = ctx.counters.get("window.lon_window", 0) + ctx.counters.get("window.lat_window", 0) + ctx.counters.get("window.lon_window_changed", 0)
+        ctx.count("pairs.tight_output_window")
+        if after > before:
+            ctx.count("pairs.tight_output_window.coarse_window_drops_needed_targets")
+        check_unreduced_split(ctx, src, tgt, radius, desc)
